@@ -833,7 +833,10 @@ class ValueDecimal(Value):
         return self
 
     def asDate(self):
-        return ValueDate(to_date(self.value))
+        try:
+            return ValueDate(to_date(self.value))
+        except ValueError:
+            raise CklRuntimeError(ValueString("ERROR"), "Date out of range")
 
     def asList(self):
         return ValueList().addItem(self)
@@ -963,7 +966,10 @@ class ValueInt(Value):
         return ValueBoolean.fromval(self.value != 0)
 
     def asDate(self):
-        return ValueDate(to_date(self.value))
+        try:
+            return ValueDate(to_date(self.value))
+        except ValueError:
+            raise CklRuntimeError(ValueString("ERROR"), "Date out of range")
 
     def asList(self):
         return ValueList().addItem(self)
